@@ -206,7 +206,7 @@ pub fn spaces(tier: &str) -> Vec<Box<dyn Space>> {
             ));
         }
         let maxrec = (65535 - 24) / rs;
-        let top = if tier == "thorough" { maxrec } else { 300 };
+        let top = maxrec;
         v.push(space(&format!("v{}-materialised-counts-0..={}", version, top), top as u64 + 1, move |n| judge_bytes(&fixed_distinct(version, n as usize, 7)), move |n| json!({"records": n, "salt": 7})));
         // chained packets: every ordered pair/triple of {v5 x0,x1,x2 ; v7 x0,x1,x2}
         v.push(space(
@@ -224,7 +224,7 @@ pub fn spaces(tier: &str) -> Vec<Box<dyn Space>> {
         ));
         // part 2: struct -> bytes -> struct
         let nf = if version == 5 { NF5 } else { NF7 } as u64;
-        let counts: Vec<usize> = if tier == "thorough" { vec![0, 1, 2, 3, maxrec] } else { vec![0, 1, 2, 3, 40] };
+        let counts: Vec<usize> = if tier == "thorough" { vec![0, 1, 2, 3, 40, maxrec] } else { vec![0, 1, 2, 3, 40] };
         for n in counts {
             v.push(space(
                 &format!("v{}-struct-roundtrip-{}-records", version, n),
